@@ -125,11 +125,11 @@ Proof.
     change (mk_frags u sid ssn ppid first (f :: f2 :: rest'))
       with (p :: mk_frags u sid ssn ppid false (f2 :: rest')).
     assert (Hp : proc_data a p =
-                 (mkApp (upd_chan sid (with_buf ((if first then [] else ch_buf ch) ++ f)) (a_chans a)) (a_streams a), [])).
+                 (mkApp3 (upd_chan sid (with_buf ((if first then [] else ch_buf ch) ++ f)) (a_chans a)) (a_streams a) (a_dcep a), [])).
     { unfold proc_data. subst p. cbn [p_sid p_flags p_data]. rewrite Hfind, rx_e_tx, rx_b_tx. reflexivity. }
     cbn zeta. rewrite proc_all_cons, Hp. cbn [fst snd List.app].
     set (B := (if first then [] else ch_buf ch) ++ f).
-    set (a1 := mkApp (upd_chan sid (with_buf B) (a_chans a)) (a_streams a)).
+    set (a1 := mkApp3 (upd_chan sid (with_buf B) (a_chans a)) (a_streams a) (a_dcep a)).
     assert (Hf1 : find_chan sid (a_chans a1) = Some (with_buf B ch)) by (apply find_upd_same; exact Hfind).
     specialize (IH false a1 (with_buf B ch) ltac:(discriminate) Hf1).
     cbn [ch_buf with_buf ch_ordered] in IH. cbn zeta in IH.
